@@ -205,7 +205,18 @@ func (r *histRun) query(q M, idx int) interface{} {
 			}
 			pages = append(pages, page)
 			since = res.NextToken
-			tokens = append(tokens, since)
+			tok := since
+			if getb(q, "rank") {
+				// after a crash the sequence resumes beyond its lease: report a token as the number of
+				// entries below it (what it means), not as the raw position
+				all, err1 := ds.GetChanges(0, 0, false)
+				rest, err2 := ds.GetChanges(since, 0, false)
+				if err1 != nil || err2 != nil {
+					return M{"err": "rank"}
+				}
+				tok = uint64(len(all.Entities) - len(rest.Entities))
+			}
+			tokens = append(tokens, tok)
 		}
 		return M{"pages": pages, "tokens": tokens}
 	case "entity":
@@ -411,67 +422,11 @@ func runStoreHist(c *Ctx, in M) (M, interface{}) {
 		for i, o := range ops {
 			op := o.(map[string]interface{})
 			switch gets(op, "op") {
-			case "createDs":
-				var cfg *server.CreateDatasetConfig
-				if pn := getl(op, "publicNamespaces"); len(pn) > 0 {
-					cfg = &server.CreateDatasetConfig{PublicNamespaces: strs(pn)}
-				}
-				ds, err := r.h.Dsm.CreateDataset(gets(op, "name"), cfg)
-				if err == nil {
-					r.dsids[gets(op, "name")] = ds.InternalID
-					op["dsid"] = ds.InternalID
-				}
-			case "store":
-				ds := r.h.Dsm.GetDataset(gets(op, "ds"))
-				if ds == nil {
-					op["rc"] = "nods"
-					continue
-				}
-				ents := []*server.Entity{}
-				for _, x := range getl(op, "ents") {
-					ents = append(ents, toEntity(x.(map[string]interface{})))
-				}
-				err := ds.StoreEntities(ents)
-				if err != nil {
-					op["rc"] = "err"
-				} else if len(ents) > 0 {
-					r.times[i] = int64(ents[0].Recorded)
-					op["t"] = ents[0].Recorded
-				}
-				r.noteIDs(op, getl(op, "ents"))
-			case "txn":
-				txn := &server.Transaction{DatasetEntities: map[string][]*server.Entity{}}
-				var first *server.Entity
-				for _, p := range getl(op, "parts") {
-					pm := p.(map[string]interface{})
-					ents := []*server.Entity{}
-					for _, x := range getl(pm, "ents") {
-						ents = append(ents, toEntity(x.(map[string]interface{})))
-					}
-					if len(ents) > 0 && first == nil {
-						first = ents[0]
-					}
-					txn.DatasetEntities[gets(pm, "ds")] = ents
-				}
-				if err := r.h.Store.ExecuteTransaction(txn); err != nil {
-					op["rc"] = "err"
-				} else if first != nil {
-					r.times[i] = int64(first.Recorded)
-					op["t"] = first.Recorded
-				}
-				for _, p := range getl(op, "parts") {
-					r.noteIDs(op, getl(p.(map[string]interface{}), "ents"))
-				}
-			case "deleteDs":
-				if err := r.h.Dsm.DeleteDataset(gets(op, "name")); err != nil {
-					op["rc"] = "err"
-				}
-			case "renameDs":
-				if _, err := r.h.Dsm.UpdateDataset(gets(op, "name"), &server.UpdateDatasetConfig{ID: gets(op, "to")}); err != nil {
-					op["rc"] = "err"
-				} else {
-					r.dsids[gets(op, "to")] = r.dsids[gets(op, "name")]
-				}
+			case "createDs", "store", "txn", "deleteDs", "renameDs":
+				r.mutate(i, op)
+			case "crash":
+				r.crash(i, op)
+				obs = append(obs, M{"landed": getb(op, "landed")})
 			case "dup":
 				ds := r.h.Dsm.GetDataset(gets(op, "ds"))
 				if ds == nil {
@@ -543,6 +498,74 @@ func runStoreHist(c *Ctx, in M) (M, interface{}) {
 		obs = append(obs, M{"panic": panicked})
 	}
 	return in, obs
+}
+
+// mutate executes one state-changing operation (createDs, store, txn, deleteDs, renameDs) against the
+// real hub and fills in what the real code chose (commit time, dataset id, result class).
+func (r *histRun) mutate(i int, op M) {
+	switch gets(op, "op") {
+	case "createDs":
+		var cfg *server.CreateDatasetConfig
+		if pn := getl(op, "publicNamespaces"); len(pn) > 0 {
+			cfg = &server.CreateDatasetConfig{PublicNamespaces: strs(pn)}
+		}
+		ds, err := r.h.Dsm.CreateDataset(gets(op, "name"), cfg)
+		if err == nil {
+			r.dsids[gets(op, "name")] = ds.InternalID
+			op["dsid"] = ds.InternalID
+		}
+	case "store":
+		ds := r.h.Dsm.GetDataset(gets(op, "ds"))
+		if ds == nil {
+			op["rc"] = "nods"
+			return
+		}
+		ents := []*server.Entity{}
+		for _, x := range getl(op, "ents") {
+			ents = append(ents, toEntity(x.(map[string]interface{})))
+		}
+		err := ds.StoreEntities(ents)
+		if err != nil {
+			op["rc"] = "err"
+		} else if len(ents) > 0 {
+			r.times[i] = int64(ents[0].Recorded)
+			op["t"] = ents[0].Recorded
+		}
+		r.noteIDs(op, getl(op, "ents"))
+	case "txn":
+		txn := &server.Transaction{DatasetEntities: map[string][]*server.Entity{}}
+		var first *server.Entity
+		for _, p := range getl(op, "parts") {
+			pm := p.(map[string]interface{})
+			ents := []*server.Entity{}
+			for _, x := range getl(pm, "ents") {
+				ents = append(ents, toEntity(x.(map[string]interface{})))
+			}
+			if len(ents) > 0 && first == nil {
+				first = ents[0]
+			}
+			txn.DatasetEntities[gets(pm, "ds")] = ents
+		}
+		if err := r.h.Store.ExecuteTransaction(txn); err != nil {
+			op["rc"] = "err"
+		} else if first != nil {
+			r.times[i] = int64(first.Recorded)
+			op["t"] = first.Recorded
+		}
+		for _, p := range getl(op, "parts") {
+			r.noteIDs(op, getl(p.(map[string]interface{}), "ents"))
+		}
+	case "deleteDs":
+		if err := r.h.Dsm.DeleteDataset(gets(op, "name")); err != nil {
+			op["rc"] = "err"
+		}
+	case "renameDs":
+		if _, err := r.h.Dsm.UpdateDataset(gets(op, "name"), &server.UpdateDatasetConfig{ID: gets(op, "to")}); err != nil {
+			op["rc"] = "err"
+		} else {
+			r.dsids[gets(op, "to")] = r.dsids[gets(op, "name")]
+		}
+	}
 }
 
 // ---- generator ------------------------------------------------------------------------------
@@ -719,7 +742,7 @@ func (g *storeGen) queries(opIdx int, nops int) []M {
 
 var storeProfiles = map[string][]int{
 	"c01": {0, 0, 2, 3}, "c02": {1}, "c03": {4, 5}, "c06": {2, 4, 5}, "all": {0, 1, 2, 3, 4, 5},
-	"c20": {0, 1, 2, 4}, "c07": {0, 1, 2, 3, 4, 5, 6}, "c19": {6, 6, 0}, "c12": {0, 1, 2, 3, 4, 5}, "c14": {0, 1, 2, 4, 6},
+	"c04": {0, 1, 1, 2, 3, 4, 5}, "c20": {0, 1, 2, 4}, "c07": {0, 1, 2, 3, 4, 5, 6}, "c19": {6, 6, 0}, "c12": {0, 1, 2, 3, 4, 5}, "c14": {0, 1, 2, 4, 6},
 }
 
 // a dataset with several hundred entities, listed with small pages by following the tokens
@@ -755,9 +778,16 @@ func genStoreBig(c *Ctx, profile string) {
 
 func genStore(c *Ctx, profile string) {
 	genStoreBig(c, profile)
+	var crashPts crashPoints
+	if profile == "c04" {
+		crashPts = loadCrashPoints()
+	}
 	n := map[string]int{"quick": 200, "thorough": 900}[c.Tier]
 	if n == 0 {
 		n = 60
+	}
+	if profile == "c04" { // every crash is a child process and two store openings
+		n = map[string]int{"quick": 90, "thorough": 600}[c.Tier]
 	}
 	for i := 0; i < n; i++ {
 		g := &storeGen{kinds: storeProfiles[profile], atOnly: profile == "c06", c: c, ids: []string{"ns3:e1", "ns3:e2", "ns3:e3", "ns3:e4", "ns3:e5"}, preds: []string{"ns3:r1", "ns3:r2", "ns3:r3"}, dss: []string{"a", "b", "c"}[:2+c.Rng.Intn(2)]}
@@ -770,7 +800,7 @@ func genStore(c *Ctx, profile string) {
 			ops = append(ops, op)
 		}
 		g.allNames = append([]string{}, g.dss...)
-		mgmt := profile == "c07" || profile == "c19" || profile == "c14"
+		mgmt := profile == "c07" || profile == "c19" || profile == "c14" || profile == "c04"
 		nops := 4 + c.Rng.Intn(12)
 		for k := 0; k < nops; k++ {
 			if mgmt && c.Rng.Intn(4) == 0 {
@@ -882,6 +912,19 @@ func genStore(c *Ctx, profile string) {
 			}
 			for q := 0; q < 1+c.Rng.Intn(3); q++ {
 				ops = append(ops, g.queries(len(ops), nops)...)
+			}
+		}
+		if profile == "c04" {
+			if len(crashPts.Points) == 0 {
+				c.Emit("c04.nopoints", M{"error": crashPts.Error}, M{"error": "tools/instr found no crash points in the source"})
+				return
+			}
+			ops = wrapCrashes(c, ops, crashPts)
+			for _, op := range ops {
+				if gets(op, "q") == "changes" {
+					op["rank"] = true
+					op["since"] = 0
+				}
 			}
 		}
 		doHist(c, M{"ops": ops})
